@@ -15,16 +15,17 @@ CONSTANT Aspects                 \* which observations this validation gates on 
                                  \*   "errrec"  content of the error record given to the handler (C02)
                                  \*   "recv"    the definition received the caller's objects (C01/C11)
 VARIABLE l,                      \* next line of the trace
-         lay                     \* per policy: the memory layout recorded after the last update (C04)
-tvars == <<vars, l, lay>>
+         lay,                    \* per policy: the memory layout recorded after the last update (C04)
+         nodes                   \* per policy: spec class each node of the harness's C++ chain stands for
+tvars == <<vars, l, lay, nodes>>
 
 Tr == ndJsonDeserialize(IOEnv.TRACE)
 Ev == Tr[l]
 IsEvent(k) == l <= Len(Tr) /\ Tr[l].e = k /\ l' = l + 1
-KeepLay == UNCHANGED lay
+KeepLay == UNCHANGED <<lay, nodes>>
 
 NoLayout == [size |-> 0, vptr |-> <<>>, ms |-> <<>>, dt |-> <<>>]
-TInit == Init /\ l = 1 /\ lay = [p \in Policy |-> NoLayout]
+TInit == Init /\ l = 1 /\ lay = [p \in Policy |-> NoLayout] /\ nodes = [p \in Policy |-> <<0, 0, 0, 0>>]
 
 (* several executions are concatenated in one file, separated by reset *)
 TReset ==
@@ -34,7 +35,7 @@ TReset ==
     /\ defs' = [p \in Policy |-> <<>>] /\ inst' = [p \in Policy |-> NotInstalled]
     /\ fresh' = [p \in Policy |-> FALSE] /\ handler' = [p \in Policy |-> "throw"]
     /\ vps' = <<>> /\ dead' = FALSE /\ obs' = [k |-> "init"]
-    /\ lay' = [p \in Policy |-> NoLayout]
+    /\ lay' = [p \in Policy |-> NoLayout] /\ nodes' = [p \in Policy |-> <<0, 0, 0, 0>>]
 
 TClass    == IsEvent("class")    /\ KeepLay /\ RegisterClass(Ev.p, [r |-> Ev.r, c |-> Ev.c, bases |-> Ev.bases, abs |-> Ev.abs])
 TUnclass  == IsEvent("unclass")  /\ KeepLay /\ UnregisterClass(Ev.p, Ev.r)
@@ -46,7 +47,7 @@ THandler  == IsEvent("handler")  /\ KeepLay /\ SetHandler(Ev.p, Ev.kind)
 
 TUpdate ==
     /\ IsEvent("update")
-    /\ lay' = [lay EXCEPT ![Ev.p] = NoLayout]
+    /\ lay' = [lay EXCEPT ![Ev.p] = NoLayout] /\ UNCHANGED nodes
     /\ \/ Ev.res = "ok"       /\ IF "report" \in Aspects
                                   THEN UpdateOK(Ev.p, Ev.rep) /\ Ev.rep.cells = Ev.rep.built
                                   ELSE UpdateOKAnyReport(Ev.p)
@@ -87,6 +88,10 @@ TCTable ==
     /\ obs' = [k |-> "table"]
     /\ UNCHANGED <<classes, methods, defs, inst, fresh, handler, vps, dead>>
 
+Lookup(seq, k) == seq[CHOOSE i \in DOMAIN seq : seq[i][1] = k]
+HasKey(seq, k) == \E i \in DOMAIN seq : seq[i][1] = k
+CellOf(L, c, m, i) == Lookup(L.vptr, c)[2] + Lookup(L.ms, m)[2][i]
+Kind(reads, k) == SelectSeq(reads, LAMBDA r : r[1] = k)
 TResolve ==
     /\ KeepLay
     /\ IsEvent("resolve")
@@ -96,13 +101,23 @@ TResolve ==
 TCall ==
     /\ KeepLay
     /\ IsEvent("call")
-    /\ Call(Ev.p, Ev.m, Ev.t)
-    /\ \/ Ev.o >= 0 /\ obs'.k = "ran" /\ obs'.d = Ev.o
-                    /\ ("recv" \in Aspects => obs'.t = Ev.recv)
-       \/ Ev.o < 0  /\ obs'.k = "err"
-                    /\ obs'.rec.status = (IF Ev.o = NoDef THEN 1 ELSE 2)
-                    /\ ("errrec" \in Aspects => obs'.rec = [status |-> Ev.st, arity |-> Ev.ar, types |-> Ev.ty])
-                    /\ obs'.then = Ev.then
+    /\ \/ /\ Ev.then # "unknown"
+          /\ Call(Ev.p, Ev.m, Ev.t)
+          /\ \/ Ev.o >= 0 /\ obs'.k = "ran" /\ obs'.d = Ev.o
+                          /\ ("recv" \in Aspects => obs'.t = Ev.recv)
+             \/ Ev.o < 0  /\ obs'.k = "err"
+                          /\ obs'.rec.status = (IF Ev.o = NoDef THEN 1 ELSE 2)
+                          /\ ("errrec" \in Aspects => obs'.rec = [status |-> Ev.st, arity |-> Ev.ar, types |-> Ev.ty])
+                          /\ obs'.then = Ev.then
+       \/ /\ Ev.then = "unknown"
+          /\ Ev.chk
+          /\ CallUnknown(Ev.p, Ev.m, Ev.t, Ev.c)
+          \* no table was read through the unregistered class: every v-table read recorded before the
+          \* report belongs to an earlier, registered argument
+          /\ LET v == Kind(Ev.reads, "v")
+                 firstbad == CHOOSE i \in DOMAIN Ev.t : Ev.t[i] \notin inst[Ev.p].cls /\ \A j \in 1..(i - 1) : Ev.t[j] \in inst[Ev.p].cls
+             IN /\ Len(v) < firstbad
+                /\ lay[Ev.p].size > 0 => \A i \in DOMAIN v : v[i][2] = CellOf(lay[Ev.p], Ev.t[i], Ev.m, i)
 
 (* the child process died with SIGABRT: legal only as the specified end of a *)
 (* call whose handler returned                                             *)
@@ -112,6 +127,43 @@ TDied ==
     /\ dead /\ obs.k = "err" /\ obs.then = "aborted" /\ Ev.sig = 6
     /\ obs' = [k |-> "died"]
     /\ UNCHANGED <<classes, methods, defs, inst, fresh, handler, vps, dead>>
+
+(* ---- virtual_ptr handles (C09, C15) ---- *)
+NodeClass(p, k) == nodes[p][k + 1]
+TNode ==
+    /\ IsEvent("node") /\ UNCHANGED lay
+    /\ Ev.ok
+    /\ nodes' = [nodes EXCEPT ![Ev.p][Ev.k + 1] = Ev.c]
+    /\ UNCHANGED vars
+TVptr ==
+    /\ IsEvent("vptr") /\ KeepLay
+    /\ LET st == NodeClass(Ev.p, Ev.k) IN
+       \/ Ev.res = "ok"      /\ MakeVptr(Ev.p, Ev.h, st, Ev.dyn, Ev.oid, Ev.ind, Ev.route)
+       \/ Ev.res = "unknown" /\ Ev.chk /\ MakeVptrUnknown(Ev.p, Ev.dyn) /\ Ev.c = Ev.dyn
+       \/ Ev.res = "mtable"  /\ Ev.chk /\ MakeVptrNotFinal(Ev.p, st, Ev.dyn, Ev.route) /\ Ev.c = Ev.dyn
+TVDerive ==
+    /\ IsEvent("vderive") /\ KeepLay
+    /\ Ev.res = "ok"
+    /\ DeriveVptr(Ev.h, Ev.from)
+    /\ obs'.oid = Ev.oid
+    \* a conversion or cast is legal only towards a class the pointee really has
+    /\ NodeClass(Ev.p, Ev.k) \in inst[Ev.p].anc[vps[Ev.from].dyn]
+TVDrop == IsEvent("vdrop") /\ KeepLay /\ DropVptr(Ev.h)
+TVGet ==
+    /\ IsEvent("vget") /\ KeepLay
+    /\ GetVptr(Ev.h)
+    /\ \A i \in DOMAIN Ev.oids : Ev.oids[i] = obs'.oid
+TVCall ==
+    /\ IsEvent("vcall") /\ KeepLay
+    /\ VpCall(Ev.p, Ev.m, Ev.hs)
+    /\ obs'.o = Ev.o
+    /\ Ev.o >= 0 => obs'.oids = Ev.recv
+(* the harness refused to touch a handle that is no longer valid (direct     *)
+(* virtual_ptr after an update)                                            *)
+TVSkip ==
+    /\ IsEvent("vskip") /\ KeepLay
+    /\ \E i \in DOMAIN Ev.hs : IF Ev.hs[i] \in DOMAIN vps THEN ~VpValid(vps[Ev.hs[i]]) ELSE TRUE
+    /\ UNCHANGED vars
 
 (* an observation the harness refused to make because it would not be a     *)
 (* legal use (no successful update since the last catalog change)           *)
@@ -141,9 +193,6 @@ TEnd ==
 (* parameter owns a cell inside the data, no two share a cell, no cell lies  *)
 (* inside a dispatch table, tables are inside the data and disjoint.        *)
 (***************************************************************************)
-Lookup(seq, k) == seq[CHOOSE i \in DOMAIN seq : seq[i][1] = k]
-HasKey(seq, k) == \E i \in DOMAIN seq : seq[i][1] = k
-CellOf(L, c, m, i) == Lookup(L.vptr, c)[2] + Lookup(L.ms, m)[2][i]
 Triples(p) ==
     {tr \in inst[p].cls \X (DOMAIN inst[p].mvp) \X (1..4) :
         tr[3] <= Len(inst[p].mvp[tr[2]]) /\ inst[p].mvp[tr[2]][tr[3]] \in inst[p].anc[tr[1]]}
@@ -164,7 +213,7 @@ TLayout ==
     /\ IsEvent("layout")
     /\ ~dead /\ fresh[Ev.p] /\ inst[Ev.p].ok
     /\ LayoutOK(Ev.p, Ev)
-    /\ lay' = [lay EXCEPT ![Ev.p] = [size |-> Ev.size, vptr |-> Ev.vptr, ms |-> Ev.ms, dt |-> Ev.dt]]
+    /\ lay' = [lay EXCEPT ![Ev.p] = [size |-> Ev.size, vptr |-> Ev.vptr, ms |-> Ev.ms, dt |-> Ev.dt]] /\ UNCHANGED nodes
     /\ obs' = [k |-> "layout"]
     /\ UNCHANGED <<classes, methods, defs, inst, fresh, handler, vps, dead>>
 
@@ -172,7 +221,6 @@ TLayout ==
 (* the v-table reads are exactly the cells owned by (class of argument i,   *)
 (* method, i), in order; every dispatch-table read lies in this method's     *)
 (* table; a uni-method reads nothing else.                                 *)
-Kind(reads, k) == SelectSeq(reads, LAMBDA r : r[1] = k)
 ReadsRowOK(p, m, row) ==
     LET L == lay[p] t == row[1] v == Kind(row[2], "v") d == Kind(row[2], "d") IN
     /\ Len(v) = Len(t)
@@ -203,7 +251,7 @@ TNext ==
 
 TNextStep ==
     \/ TReset \/ TClass \/ TUnclass \/ TMethod \/ TUnmethod \/ TDef \/ TUndef \/ THandler
-    \/ TUpdate \/ TTable \/ TCTable \/ TResolve \/ TCall \/ TDied \/ TNext \/ TEnd \/ TLayout \/ TReads \/ TSkip
+    \/ TUpdate \/ TTable \/ TCTable \/ TResolve \/ TCall \/ TDied \/ TNext \/ TEnd \/ TLayout \/ TReads \/ TSkip \/ TNode \/ TVptr \/ TVDerive \/ TVDrop \/ TVGet \/ TVCall \/ TVSkip
 
 TSpec == TInit /\ [][TNextStep]_tvars
 
